@@ -452,6 +452,10 @@ theorem sameMeaning_denote {s t : Sp} (h : SameMeaning s t) : denote s = denote 
 theorem kwAllowed_fieldExpr {s : Sp} (h : kwAllowed s = true) : isFieldExpr s = true := by
   cases s <;> simp [kwAllowed] at h <;> rfl
 
+theorem eqResult_scalar (d : FieldDecl) (opt : Bool) {v : PyVal} (h : scalarDefault v = true) :
+    eqResult d opt v = .field d false (some v) := by
+  cases v <;> simp [scalarDefault] at h <;> rfl
+
 theorem tryDefault_of_ok {O : Oracles} {d : FieldDecl} {v : PyVal} (h : defaultOk O d v = true) :
     tryDefault O d v = .ok () := by
   unfold defaultOk at h
@@ -481,10 +485,12 @@ theorem elabField_meaning' (O : Oracles) (future : Bool) (fs : FieldSp)
         simp [hf, g.gt, afterGtli, finishField, hfe, Bool.or_comm]
     | eq v n =>
       simp only [Bool.and_eq_true] at hd
-      simp only [evTop, hev, bindE_ok, annField, fieldMeaning, DefaultSp.value]
+      simp only [evTop, hev, bindE_ok, annField, fieldMeaning, DefaultSp.value, effOptional]
       by_cases hf : isFieldObj o = true
-      · simp [hf, hgi, finishField, hd.1]
-      · simp [hf, g.gt, afterGtli, finishField, hd.1]
+      · have hfe : isFieldExpr ty = true := by rw [← g.fo]; exact hf
+        simp [hf, hgi, finishField, hd.1, hfe]
+      · have hfe : isFieldExpr ty = false := by rw [← g.fo]; simpa using hf
+        simp [hf, g.gt, afterGtli, finishField, hd.1, hfe, Bool.or_comm]
     | kw v n =>
       simp only [Bool.and_eq_true, Bool.or_eq_true] at hd
       obtain ⟨⟨hsc, hkw⟩, hok⟩ := hd
@@ -494,12 +500,12 @@ theorem elabField_meaning' (O : Oracles) (future : Bool) (fs : FieldSp)
       by_cases ht : truthy v = true
       · cases htd : tryDefault O (denote ty) v with
         | error e => simp [ht]
-        | ok u => simp [ht, annField, isFieldObj, getItem, finishField]
+        | ok u => simp [ht, annField, isFieldObj, getItem, finishField, eqResult_scalar _ _ hsc]
       · have hok' : defaultOk O (denote ty) v = true := by
           rcases hok with hok | hok
           · exact absurd hok ht
           · exact hok
-        simp [ht, tryDefault_of_ok hok', annField, isFieldObj, getItem, finishField]
+        simp [ht, tryDefault_of_ok hok', annField, isFieldObj, getItem, finishField, eqResult_scalar _ _ hsc]
   | assign =>
     simp only [elabField]
     have hf : isFieldObj o = true := by rw [g.fo]; exact hm
@@ -525,12 +531,12 @@ theorem elabField_meaning' (O : Oracles) (future : Bool) (fs : FieldSp)
       by_cases ht : truthy v = true
       · cases htd : tryDefault O (denote ty) v with
         | error e => simp [ht]
-        | ok u => simp [ht, assignField, finishFieldNoCheck]
+        | ok u => simp [ht, assignField, finishFieldNoCheck, eqResult_scalar _ _ hsc]
       · have hok' : defaultOk O (denote ty) v = true := by
           rcases hok with hok | hok
           · exact absurd hok ht
           · exact hok
-        simp [ht, tryDefault_of_ok hok', assignField, finishFieldNoCheck]
+        simp [ht, tryDefault_of_ok hok', assignField, finishFieldNoCheck, eqResult_scalar _ _ hsc]
 
 theorem fieldMeaning_same (O : Oracles) {a b : FieldSp} (h : FieldSame a b) : fieldMeaning O a = fieldMeaning O b := by
   simp [fieldMeaning, h.dflt, h.opt, sameMeaning_denote h.ty]
